@@ -163,6 +163,23 @@ SysAnswers(e) ==
       in_hull |-> {[b |-> b, cls |-> ClassOf(s, TargetInt(s, b))] : b \in PT},
       skipped_probes |-> Cardinality(ProbeTargets) - Cardinality(PT)]
 
+(* error behaviour: which exception (if any) each call raises in the registered state e   *)
+(* ("ok" = returns).  Calls that would change the state are issued on a copy by the harness. *)
+ErrorsOf(e) ==
+  LET under == e.reg /\ D0 < Len(e.A[1])
+      bounded == e.reg /\ \A j \in 1..Len(e.ub) : ~RIsInf(e.ub[j])
+  IN [system_capture |-> IF e.reg THEN "ok" ELSE "AssertionError",
+      in_system |-> IF e.reg THEN "ok" ELSE "AssertionError",
+      register_bounds |-> IF e.reg THEN "ok" ELSE "AssertionError",
+      register_targets |-> IF e.reg THEN "ok" ELSE "AssertionError",
+      fit_registered |-> IF e.reg /\ e.treg THEN "ok" ELSE "AssertionError",
+      fit_unknown_model |-> IF e.reg THEN "NameError" ELSE "AssertionError",
+      fit_n_jobs |-> IF e.reg THEN "NotImplementedError" ELSE "AssertionError",
+      range_not_underdetermined |-> IF ~e.reg THEN "AssertionError" ELSE IF under THEN "n/a" ELSE "ValueError",
+      fit_underdetermined_not_under |-> IF ~e.reg THEN "AssertionError" ELSE IF under THEN "n/a" ELSE "AssertionError",
+      gamut_metric |-> IF ~e.reg THEN "AssertionError" ELSE IF bounded THEN "ok" ELSE "ValueError",
+      sample_unknown_engine |-> IF ~e.reg THEN "AssertionError" ELSE IF bounded THEN "NameError" ELSE "n/a"]
+
 Answers(e) ==
   [capture |-> [k \in 1..Len(BgPool) |-> SpecCapture(BgPool[k])],
    relative_capture |-> [k \in 1..Len(BgPool) |-> RelOf(e, RVec(SpecCapture(BgPool[k])))],
@@ -170,6 +187,7 @@ Answers(e) ==
    registered |-> e.reg, registered_targets |-> e.treg,
    lb |-> e.lb, ub |-> e.ub,
    tB |-> e.tB, W |-> e.W, fitted |-> e.fitted, nfit |-> e.nfit,
+   errors |-> ErrorsOf(e),
    sys |-> IF e.reg THEN SysAnswers(e) ELSE [none |-> TRUE]]
 
 (* a read-only query: stutters on the registered state                            *)
